@@ -24,8 +24,8 @@ variable {α : Type} [Num α]
 def rgb? (c : Color α) : Option RGB := match c.state with | .valid r => some r | _ => none
 def isValid (c : Color α) : Bool := c.rgb?.isSome
 
-/-- `Color(color_input, background_context)`: `_parse` records `ValueError` and `TypeError` as an
-    invalid colour; anything else escapes -/
+/-- `Color(color_input, background_context)`: `_parse` records `ValueError`, `TypeError` and `OverflowError`
+    (`float(n)` of an int beyond the range of a double) as an invalid colour; anything else escapes -/
 def new (E : PEnv) (input : PyVal α) (ctx : Option (Color α)) : Color α :=
   let fmt := detectFormat E input
   let bg : Option RGB := match ctx with | some c => c.rgb? | none => none
@@ -33,7 +33,7 @@ def new (E : PEnv) (input : PyVal α) (ctx : Option (Color α)) : Color α :=
   | .ok rgb => { fmt := fmt, state := .valid rgb }
   | .error .valueError => { fmt := fmt, state := .invalid }
   | .error .typeError => { fmt := fmt, state := .invalid }
-  | .error e => { fmt := fmt, state := .raised e }
+  | .error .overflowError => { fmt := fmt, state := .invalid }
 
 end Color
 
